@@ -71,6 +71,8 @@ pub enum Evt {
 #[derive(Clone, Debug, Default)]
 pub struct ExecLog {
     pub evts: Vec<Evt>,
+    /// which program ran in this execution (when a body alternates between programs)
+    pub tag: usize,
     /// number of live static values (TLS / lazy) created by the harness and not yet dropped, sampled
     /// when the execution started
     pub live_at_start: i64,
@@ -427,6 +429,32 @@ impl Future for EventFut<'_> {
         // register first, then check (the check is a Shuttle atomic: a scheduling point inside poll)
         self.ev.wakers.lock().unwrap().push(cx.waker().clone());
         if self.ev.flag.load(Ordering::SeqCst) {
+            Poll::Ready(())
+        } else {
+            Poll::Pending
+        }
+    }
+}
+
+struct EventThenFut<'a> {
+    ev: &'a Event,
+    mutex: Option<&'a Mutex<i64>>,
+    rx: Option<&'a mpsc::Receiver<i64>>,
+}
+
+impl Future for EventThenFut<'_> {
+    type Output = ();
+    fn poll(self: Pin<&mut Self>, cx: &mut Context<'_>) -> Poll<()> {
+        self.ev.wakers.lock().unwrap().push(cx.waker().clone());
+        let set = self.ev.flag.load(Ordering::SeqCst);
+        // a blocking operation in the middle of the poll
+        if let Some(m) = self.mutex {
+            drop(m.lock());
+        }
+        if let Some(rx) = self.rx {
+            let _ = rx.recv();
+        }
+        if set {
             Poll::Ready(())
         } else {
             Poll::Pending
@@ -975,6 +1003,15 @@ async fn run_task(w: Arc<World>, me: usize, is_async: bool, ends: Ends) -> i64 {
                 EventFut { ev: &wr.events[*e] }.await;
                 1
             }),
+            Op::EvWaitThen(e, lock, obj) => Some({
+                let rendezvous = !*lock && matches!(prog.objs.chans[*obj], ChanKind::Bounded(0));
+                if !is_async || (*lock && mg[*obj].is_some()) || (!*lock && (my_rx[*obj].is_none() || rendezvous)) {
+                    SKIP
+                } else {
+                    EventThenFut { ev: &wr.events[*e], mutex: if *lock { Some(&wr.mutexes[*obj]) } else { None }, rx: if *lock { None } else { my_rx[*obj].as_ref() } }.await;
+                    1
+                }
+            }),
             Op::EvSet(e) => {
                 wr.events[*e].flag.store(true, Ordering::SeqCst);
                 let ws: Vec<Waker> = std::mem::take(&mut *wr.events[*e].wakers.lock().unwrap());
@@ -1113,6 +1150,10 @@ async fn run_task(w: Arc<World>, me: usize, is_async: bool, ends: Ends) -> i64 {
 
 /// The test body for a Runner: builds a fresh world per execution and runs task 0.
 pub fn body(prog: Arc<Prog>, sink: Sink, opts: Opts) -> impl Fn() + Send + Sync + 'static {
+    body_tagged(prog, sink, opts, 0)
+}
+
+pub fn body_tagged(prog: Arc<Prog>, sink: Sink, opts: Opts, tag: usize) -> impl Fn() + Send + Sync + 'static {
     move || {
         sink.logs.lock().unwrap().push(ExecLog {
             spawn_ids: vec![None; prog.tasks.len()],
@@ -1120,6 +1161,7 @@ pub fn body(prog: Arc<Prog>, sink: Sink, opts: Opts) -> impl Fn() + Send + Sync 
             cur_pc: vec![None; prog.tasks.len()],
             exiting: vec![false; prog.tasks.len()],
             joined: vec![false; prog.tasks.len()],
+            tag,
             ..Default::default()
         });
         let w = World::new(prog.clone(), sink.clone(), opts);
